@@ -13,6 +13,8 @@
 #include <stdlib.h>
 #include <string.h>
 #include <sys/mman.h>
+#include <pthread.h>
+#include <unistd.h>
 
 // private/data_private.h; not exported by libdispatch.so on Linux: available only in the white-box (static) build
 extern const void *dispatch_data_get_flattened_bytes_4libxpc(dispatch_data_t data) __attribute__((weak));
@@ -134,15 +136,31 @@ static void observe(unsigned long a, unsigned long stopk, char **locs, int nlocs
 	printf("\n");
 }
 
+// progress-based watchdog: a command that makes no progress for WD_SECS seconds (libdispatch sleeps and retries forever when
+// an allocation of a garbage size fails) ends the process with exit code 97.  Waiting for input does not count.
+#define WD_SECS 40
+static volatile unsigned long wd_progress; static volatile int wd_busy;
+static void *wd_thread(void *arg) {
+	(void)arg; unsigned long last = wd_progress; int still = 0;
+	for (;;) {
+		sleep(1);
+		if (!wd_busy || wd_progress != last) { last = wd_progress; still = 0; continue; }
+		if (++still >= WD_SECS) { fflush(stdout); fprintf(stderr, "WATCHDOG: no progress for %d s inside one command\n", WD_SECS); _exit(97); }
+	}
+	return NULL;
+}
+
 int main(void) {
 	static char line[1 << 20];
 	crc_init();
+	{ pthread_t t; pthread_create(&t, NULL, wd_thread, NULL); }
 	dq = dispatch_queue_create("c13.destructors", DISPATCH_QUEUE_SERIAL);
 	setvbuf(stdout, NULL, _IOFBF, 1 << 16);
 	while (fgets(line, sizeof line, stdin)) {
 		char *w[64]; int n = 0;
 		for (char *t = strtok(line, " \n"); t && n < 64; t = strtok(NULL, " \n")) w[n++] = t;
 		if (!n) continue;
+		wd_progress++; wd_busy = 1;
 		if (!strcmp(w[0], "reset")) {
 			drain();
 			memset(H, 0, sizeof H); memset(POISON, 0, sizeof POISON); memset(dcount, 0, sizeof dcount);
@@ -192,7 +210,7 @@ int main(void) {
 			}
 		} else if (w[0][0] == 'F' && n == 2) {
 			unsigned long a = strtoul(w[1], NULL, 16);
-			if (!dispatch_data_get_flattened_bytes_4libxpc) { printf("r unsupported\n"); fflush(stdout); continue; }
+			if (!dispatch_data_get_flattened_bytes_4libxpc) { printf("r unsupported\n"); fflush(stdout); wd_busy = 0; continue; }
 			if (!POISON[a]) (void)dispatch_data_get_flattened_bytes_4libxpc(H[a]);
 			printf("r id=@%" PRIxPTR " size=%zx", (uintptr_t)H[a], dispatch_data_get_size(H[a])); print_dlog(); printf("\n");
 		} else if (w[0][0] == 'R' && n == 2) {
@@ -230,6 +248,7 @@ int main(void) {
 			printf("\n");
 		} else printf("bad\n");
 		fflush(stdout);
+		wd_progress++; wd_busy = 0;
 	}
 	return 0;
 }
